@@ -469,7 +469,7 @@ pub fn c09_forced_strategy() -> BoxedStrategy<ConcCase> {
     // Close race: the background thread is held after it drained its task buffer until the clients
     // are done, and lingers a little, so that it resumes while the database is being closed with a
     // task that was scheduled in the meantime still unprocessed.
-    let closing = (c09_strategy(), 0u32..8, 20u32..200, 2u32..40).prop_map(|(mut c, nth, max_hold_ms, linger_ms)| {
+    let closing = (c09_strategy(), 0u32..8, 20u32..80, 2u32..40).prop_map(|(mut c, nth, max_hold_ms, linger_ms)| {
         for p in c.programs.iter_mut() {
             p.truncate(25);
         }
